@@ -41,18 +41,19 @@ MAX_RUNS = 300
 RULE = ("Hypothesis draws (synthetic curve: 5 models, parameters over the bounds, 60-1200 samples per segment, "
         "linear / jittered / quadratic sampling, noise 0 or 1e-4..3e-2 of the force range, spatial tilt and temporal "
         "drift up to +-0.3 force ranges, segment flag flipping up to 3 % of the record before the turning point, "
-        "height quantisation 1e-11..2e-9 m, height sensor noise 0..4 sample steps, innate tip column or not) x (one of the 16 (step, option value) "
-        "combinations: tip-sample separation, force offset, 6 contact point methods, 3 regions x 2 strategies, "
-        "segment discovery, height smoothing) x (a valid pipeline prefix for the step, with drawn options); the 20 "
-        "well-formed recorded curves x the 16 combinations are enumerated in every run. non-trivial = the step "
-        "changes at least one sample of a column it owns (or creates the tip column); distinct = distinct case record")
+        "height quantisation 1e-11..2e-9 m, height sensor noise 0..4 sample steps, innate tip column or not) x "
+        "(one of the 16 (step, option value) combinations: tip-sample separation, force offset, 6 contact point "
+        "methods, 3 regions x 2 strategies, segment discovery, height smoothing) x (a valid pipeline prefix for the "
+        "step, with drawn options); the 20 well-formed recorded curves x the 16 combinations are enumerated in every "
+        "run. non-trivial = the step changes at least one sample of a column it owns (or creates the tip column); "
+        "distinct = distinct case record")
 ASSUMPTIONS = [
     "well-formed (fixed by the generator, verified per case): baseline >= 10 % of the approach and >= 20 samples, "
     "each flagged segment >= 30 samples, noise <= 3 % of the force range (force rises > 10x above the noise), "
     "heights monotonic up to noise (height = tip - force / k + sensor noise of <= 4 mean sample steps; for height "
-    "smoothing a lagged segment flag is repaired by segment discovery first, as the step declares), at most " + str(MAX_RUNS) + " runs of equal "
-    "heights per segment (smooth_axis_monotone resolves one run per iteration and gives up at its documented "
-    "max_iter=1000); recorded curves: the files not labelled 'bad'",
+    "smoothing a lagged segment flag is repaired by segment discovery first, as the step declares), at most "
+    + str(MAX_RUNS) + " runs of equal heights per segment (smooth_axis_monotone resolves one run per iteration and "
+    "gives up at its documented max_iter=1000); recorded curves: the files not labelled 'bad'",
     "a pipeline is valid when required steps come earlier and optional predecessors, when present, come earlier",
     "contact indices are those of the public nanite.poc.compute_poc on the 'before' force; cases in which it "
     "returns an index outside [0, n) (defect of the estimators, property C08) are outside the domain and counted "
@@ -186,8 +187,9 @@ def st_case(draw):
 
 def recorded_cases():
     out = []
-    for ic, (name, enum) in enumerate(recorded.GOOD):
-        for io, (step, opt) in enumerate(COMBOS):
+    # combination-major order: the expensive estimators are spread over the shards
+    for io, (step, opt) in enumerate(COMBOS):
+        for ic, (name, enum) in enumerate(recorded.GOOD):
             k = ic + io
             pre = prefix(step, k, "fit_line_polynomial", REGIONS[k % 3], STRATEGIES[k % 2])
             out.append({"src": "recorded", "file": name, "enum": enum, "pipe": pre + [[step, dict(opt)]],
@@ -554,7 +556,25 @@ def check_case(case, ctx):
                     ctx.check(dd is None, "details-wrong", dict(desc, details_of=pid), f"details of {pid}: {dd!r}")
 
 
+def assert_pipelines_valid():
+    """generator self-check against the step declarations: required steps earlier, optional
+    predecessors earlier when present"""
+    from nanite import poc, preproc
+    from vlib.runner import HarnessError
+    decl = {f.identifier: (list(f.steps_required or []), list(f.steps_optional or [])) for f in preproc.PREPROCESSORS}
+    if sorted(decl) != sorted(OWNED) or sorted(p.identifier for p in poc.POC_METHODS) != sorted(POC):
+        raise HarnessError(f"steps / contact point methods of the tree differ from the check's tables: {sorted(decl)}")
+    for step, nv in NVARIANTS.items():
+        for v in range(nv):
+            order = [p[0] for p in prefix(step, v, POC[0], REGIONS[0], STRATEGIES[0])] + [step]
+            for i, sid in enumerate(order):
+                req, opt = decl[sid]
+                if not (set(req) <= set(order[:i]) and all(o in order[:i] for o in opt if o in order)):
+                    raise HarnessError(f"generated pipeline {order} is not valid")
+
+
 def run(ctx):
+    assert_pipelines_valid()
     ctx.enumerate(recorded_cases(), check_case, label="recorded")
     ctx.hypothesis(st_case(), check_case, ctx.scale(900, 36000), label="synthetic")
 
